@@ -129,7 +129,7 @@ def iv_components(iv):
             "microseconds": iv.microseconds}
 
 
-def iv_pair(acc, mods, kind, fa, fb, z=None):
+def iv_pair(acc, mods, kind, fa, fb, z=None, native=True):
     """Interval-level check for a <= b in one zone with the same offset."""
     pendulum, py, rs = mods
     if kind == "date":
@@ -169,7 +169,7 @@ def iv_pair(acc, mods, kind, fa, fb, z=None):
     rc = iv_components(rv)
     if rc != {k: -v for k, v in comp.items()}:
         acc.mismatch("interval", f"{kind}/reversed", case, rc, {k: -v for k, v in comp.items()})
-    if kind != "date":
+    if kind != "date" and native:
         # the same subtraction with a native operand on either side
         na = dt_.datetime(*fa, tzinfo=a.tzinfo, fold=a.fold)
         nb = dt_.datetime(*fb, tzinfo=b.tzinfo, fold=b.fold)
@@ -245,7 +245,7 @@ def run_shard(shard):
                         if kind == "date" and bi:
                             continue
                         with worker.guarded(acc, "interval", {"kind": "iv", "arg": kind, "z": z, "a": list(fa), "b": list(fb)}):
-                            iv_pair(acc, mods, kind, fa, fb, z)
+                            iv_pair(acc, mods, kind, fa, fb, z, native=(bi < 2 or shard["estep"] == 1))
         acc.sample({"interval_pairs_from": list(calref.civil_from_days(shard["n0"])),
                     "kinds": [k for k, _ in shard["kinds"]]})
     elif k == "cross-same":
